@@ -226,13 +226,15 @@ func ApplyEdit(d *document.Document, s Step) (desc string, err error) {
 				desc = fmt.Sprintf("tr.delP %d", i)
 			case "trstyle":
 				i := s.A % len(ps)
+				// the styled range covers 1..3 whole elements
+				j := min(len(ps), i+1+(s.B/2)%3)
 				if s.C%2 == 0 {
-					tr.RemoveStyleByPath([]int{i}, []int{i + 1}, []string{"b"})
-					desc = fmt.Sprintf("tr.rmstyle %d", i)
+					tr.RemoveStyleByPath([]int{i}, []int{j}, []string{"b"})
+					desc = fmt.Sprintf("tr.rmstyle %d..%d", i, j)
 				} else {
 					val := []string{"1", "2"}[s.B%2]
-					tr.StyleByPath([]int{i}, []int{i + 1}, map[string]string{"b": val})
-					desc = fmt.Sprintf("tr.style %d b=%s", i, val)
+					tr.StyleByPath([]int{i}, []int{j}, map[string]string{"b": val})
+					desc = fmt.Sprintf("tr.style %d..%d b=%s", i, j, val)
 				}
 			case "trtext":
 				i := s.A % len(ps)
